@@ -8,6 +8,7 @@ for d in seeded/*/; do
   n=$(basename $d)
   echo "$n" | grep -Eq "$re" || continue
   p=$(python3 -c "import json;print(json.load(open('$d/meta.json'))['property'])")
+  if python3 -c "import json,sys;sys.exit(0 if json.load(open('$d/meta.json')).get('obsolete') else 1)"; then echo "obsolete $n"; continue; fi
   out=$(tools/mutant_run.sh "$(pwd)/$d/patch.diff" - $p 2>&1)
   if echo "$out" | grep -q "^VIOLATION"; then r=DETECTED; elif echo "$out" | grep -q "patch failed"; then r=PATCH-FAILED; else r=missed; fi
   echo "$r $n $(echo "$out" | grep -E ' -> ' | tail -1 | sed 's/.*jobs, //')"
